@@ -21,6 +21,33 @@ CLAIMED = {
     ),
 }
 
+_P_NOTE = ("Bounded: queries up to the profile's MaxSize (exhaustive when under the cap, otherwise the smallest terms plus a seeded sample), "
+           "events sampled by tlc -simulate from EventGen; trusts TLC's evaluation of Denote/Schema, g++/libstdc++ as the meaning of the emitted C++, "
+           "and the model experiment framework in harness/model (generated from spec/Universe.tla).")
+_P_TECH = "TLA+ spec (Query/QueryGen/JobTrace) + TLC: query enumeration, replay into the real translator and compiled emitted code, TLC trace validation"
+
+
+def _p(text, ref):
+    return dict(category="model_checking", text=text, design_ref=ref, note=_P_NOTE, technique=_P_TECH)
+
+
+CLAIMED.update({
+    "C01": _p("TLC enumerates every well-typed query of the core LINQ profile within the size bound (derivation machine QueryGen); each is translated by the real "
+              "code on the three backends, the emitted C++ is compiled unmodified against a model data model and run on TLC-generated events; TLC validates every "
+              "observed event (rows, faults) against Denote(q, e).", "DESIGN.md section 5 C01, sections 2-3"),
+    "C02": _p("Same enumeration (core + schema profiles): every accepted query's package must be complete (files, executable entry script, no unrendered directive) and "
+              "its C++ must compile and link against the model data model and book exactly one tree; judged by TLC on the logged results.", "DESIGN.md section 5 C02"),
+    "C03": _p("TLC enumerates all terminal forms x element kinds, with implicit and explicit (AsROOTTTree, right and wrong label counts) trees; the branch list logged by the "
+              "model TTree (names, C++ types, storage identity) and the returned descriptor are validated by TLC against Schema(q); rows confirm the bound storage is what gets filled.",
+              "DESIGN.md section 5 C03"),
+    "C04": _p("TLC enumerates partial operations (First, index, link dereference, missing bank) under and outside guards; per event the job must fault exactly when Denote(q, e) "
+              "is a fault, and otherwise write exactly the denoted rows (lazy and/or/conditional/Where in the specification).", "DESIGN.md section 5 C04"),
+    "C05": _p("Every case is run over event histories (singletons in fresh job instances, permutations, reversed and shuffled sequences in one instance); TLC's trace spec has no "
+              "inter-event state and its reference-free clause StateCarried requires each event's rows in any history to equal its rows alone.", "DESIGN.md section 5 C05"),
+    "C13": _p("TLC enumerates the operator x operand-kind table exhaustively (plus a sampled wider arithmetic profile); values and column kinds computed by the compiled job are "
+              "validated by TLC against exact-rational Python numerics (Values.tla).", "DESIGN.md section 5 C13"),
+})
+
 PENDING = "check not built yet in this round (planned, see DESIGN.md section 11); not claimed until its machinery exists"
 
 
